@@ -7,6 +7,7 @@ import Operon.Model.Wiring
   rawwire a p b q                           diagram.wires.append(Wire(…))  (no check)
   handler N raise | retnone | ret p:raw:k p:typed:dt:il:k …        register_module with a scripted handler
   ext M P raw k | ext M P typed dt il k     external_inputs[M][P] = …
+  names S                                   (first line) naming scheme used by the harness for module / port names
   exec E                                    execute(external_inputs or None, enforce_static_checks=E); E = d: default
   handler2 N … / exec2 E                    the same on a SECOND DiagramExecutor built on the same diagram
   caps | caps2                              required_capabilities() of the diagram / of a second diagram
@@ -183,6 +184,7 @@ def portEdit (st : DSt) (op n : String) (e : SpecEdit) : DSt × String :=
 
 def step (st : DSt) (toks : List String) : DSt × String :=
   match toks with
+  | ["names", _] => (st, "ok ## names")   -- how the harness spells module / port names in Python; numbers here
   | "mod" :: n :: rest =>
     let (ins, outs, cs) := sections rest
     match st.d.addModule ⟨natD n, parsePorts ins, parsePorts outs, cs.map (natD ·)⟩ with
